@@ -185,15 +185,18 @@ fn count_collisions(a: Act, m: &Model, acc: &mut Acc, nontrivial: &mut bool) {
     }
 }
 
-/// Apply one action to the real container and to the model; compare the return value and
-/// everything visible afterwards.
-pub fn apply_both<T: Back>(c: &mut GC<T>, m: &mut Model, a: Act, pos: usize) -> Result<(), Mismatch> {
+/// Apply one action to the real container and to the model; compare whether end_group was
+/// accepted and everything visible afterwards.
+///
+/// The `bool` returned by `insert` is undocumented and the property does not speak about it: it is
+/// only recorded (`ret_differs` is set when it is not "the key had a visible value before").
+pub fn apply_both<T: Back>(c: &mut GC<T>, m: &mut Model, a: Act, pos: usize, ret_differs: &mut bool) -> Result<(), Mismatch> {
     match a {
         Act::Ins { k, v, global } => {
             let got = c.insert(k, v, if global { Scope::Global } else { Scope::Local });
             let want = m.insert(k, v, if global { MScope::Global } else { MScope::Local });
             if got != want {
-                return Err(mismatch(format!("insert returns {want} (key had a visible value before)"), format!("{got}"), format!("{}: return value of insert at step {pos}", T::NAME)));
+                *ret_differs = true;
             }
         }
         Act::Begin => {
@@ -222,10 +225,10 @@ pub fn apply_both<T: Back>(c: &mut GC<T>, m: &mut Model, a: Act, pos: usize) -> 
 /// levels), plus the physical size of the backing store in the last byte.
 pub type Fp = [u8; 16];
 
-fn fingerprint(segs: &[Vec<(usize, u8)>], dr: &Drain, raw_len: usize) -> Result<Fp, Mismatch> {
+fn fingerprint(segs: &[Vec<(usize, u8)>], dr: &Drain, raw_len: usize) -> Option<Fp> {
     let n = segs.len();
     if n > 15 || dr.levels.len() != n {
-        return Err(mismatch(format!("{n} levels in iter_all and in the drain"), format!("{} drained levels", dr.levels.len()), "number of BeginGroup items differs from the number of groups that can be ended"));
+        return None;
     }
     let mut fp = [0u8; 16];
     for i in 0..n {
@@ -233,8 +236,9 @@ fn fingerprint(segs: &[Vec<(usize, u8)>], dr: &Drain, raw_len: usize) -> Result<
         let mut mul = 1u8;
         for k in 0..2usize {
             let e: Vec<u8> = segs[i].iter().filter(|kv| kv.0 == k).map(|kv| kv.1).collect();
+            // a replay that lists a key twice in one group (not minimal, but possibly correct) has no code
             if e.len() > 1 || segs[i].iter().any(|kv| kv.0 > 1 || kv.1 > 1) {
-                return Err(mismatch("every key at most once per group, only inserted keys and values", format!("{:?}", segs[i]), "iter_all yields an impossible item"));
+                return None;
             }
             code += mul * e.first().map(|v| 1 + v).unwrap_or(0);
             mul *= 3;
@@ -246,9 +250,9 @@ fn fingerprint(segs: &[Vec<(usize, u8)>], dr: &Drain, raw_len: usize) -> Result<
         }
         fp[i] = code + 1;
     }
-    // physical size of the backing store (a Vec keeps empty slots of rolled-back keys; `==` sees them)
+    // physical size of the backing store (a Vec keeps empty slots of rolled-back keys)
     fp[15] = raw_len.min(254) as u8 + 1;
-    Ok(fp)
+    Some(fp)
 }
 
 pub fn init_fp() -> Fp {
@@ -259,7 +263,7 @@ pub fn init_fp() -> Fp {
 }
 
 /// Replay a history on a fresh real container and a fresh model, comparing after every step.
-fn reach<T: Back>(h: &[u8], mut count: Option<(&mut Acc, &mut bool)>) -> Result<(GC<T>, Model), Mismatch> {
+fn reach<T: Back>(h: &[u8], mut count: Option<(&mut Acc, &mut bool)>, ret_differs: &mut bool) -> Result<(GC<T>, Model), Mismatch> {
     let mut c = GC::<T>::default();
     let mut m = Model::new();
     for (i, a) in h.iter().enumerate() {
@@ -267,9 +271,20 @@ fn reach<T: Back>(h: &[u8], mut count: Option<(&mut Acc, &mut bool)>) -> Result<
         if let Some((acc, nontrivial)) = count.as_mut() {
             count_collisions(a, &m, acc, nontrivial);
         }
-        apply_both(&mut c, &mut m, a, i)?;
+        apply_both(&mut c, &mut m, a, i, ret_differs)?;
     }
     Ok((c, m))
+}
+
+/// Fingerprint of a state whose `iter_all()` cannot be used as an exact description: the history
+/// itself, so the state is merged with nothing.
+fn unmerged_fp(h: &[u8]) -> Fp {
+    let mut fp = [0u8; 16];
+    fp[0] = 0xFF;
+    for (i, a) in h.iter().take(15).enumerate() {
+        fp[i + 1] = a + 1;
+    }
+    fp
 }
 
 /// One history on one backing container: step-by-step comparison with the model, drain, and the
@@ -277,9 +292,13 @@ fn reach<T: Back>(h: &[u8], mut count: Option<(&mut Acc, &mut bool)>) -> Result<
 /// container). Returns the fingerprint of the implementation state reached.
 pub fn check_history<T: Back>(h: &[u8], acc: &mut Acc) -> Result<Fp, Mismatch> {
     let mut nontrivial = false;
-    let (c, m) = reach::<T>(h, Some((acc, &mut nontrivial)))?;
+    let mut ret_differs = false;
+    let (c, m) = reach::<T>(h, Some((acc, &mut nontrivial)), &mut ret_differs)?;
     if nontrivial {
         acc.nontrivial();
+    }
+    if h.iter().any(|a| *a < 8) {
+        acc.class(if ret_differs { "gmap: some insert() returned something else than 'the key had a visible value' (recorded, not judged)" } else { "gmap: every insert() returned whether the key had a visible value" });
     }
     acc.traces_validated += 1;
     let want_vis = model_vis(&m);
@@ -295,21 +314,23 @@ pub fn check_history<T: Back>(h: &[u8], acc: &mut Acc) -> Result<Fp, Mismatch> {
     if got != want_vis {
         return Err(mismatch(format!("{want_vis:?}"), format!("{got:?} rebuilt from {items:?}"), format!("{}: replay law: from_iter(iter_all()) shows different visible values", T::NAME)));
     }
-    if r != c {
-        // A Vec-backed map that once held a key keeps an empty slot for it, the rebuilt one never had
-        // the slot; the derived == on Vec<Option<V>> tells them apart although nothing observable
-        // differs. The property speaks of visible values and behaviour, so this is not judged.
-        if r.backing_container().raw_len() != c.backing_container().raw_len() && T::NAME == "GroupingVec" {
-            acc.count("vec_eq_not_judged_trailing_empty_slots");
-        } else {
-            return Err(mismatch(format!("{c:?}"), format!("{r:?} rebuilt from {items:?}"), format!("{}: replay law: from_iter(iter_all()) != original (PartialEq on backing container and group logs)", T::NAME)));
-        }
+    // Recorded, not judged: the property speaks of visible values and behaviour, not of the derived
+    // `==` on backing store and group logs, nor of iter_all being the same again after a replay.
+    // Where one of them does not hold, iter_all is not an exact description of the state and the
+    // state is not merged with any other (see `unmerged_fp`).
+    let mut exact = true;
+    if r == c {
+        acc.class("gmap replay: from_iter(iter_all()) == original");
+    } else if r.backing_container().raw_len() != c.backing_container().raw_len() {
+        // a Vec-backed map keeps an empty slot for a rolled-back key, the rebuilt one never had it
+        acc.class("gmap replay: from_iter(iter_all()) != original, backing stores have different slot counts (recorded, not judged)");
     } else {
-        acc.count("replay_eq_checked");
+        acc.class("gmap replay: from_iter(iter_all()) != original with equal slot counts (recorded, not judged)");
+        exact = false;
     }
-    let segs_r = segments(&iter_all_items(&r));
-    if segs_r != segs {
-        return Err(mismatch(format!("{segs:?}"), format!("{segs_r:?}"), format!("{}: replay law: iter_all of the rebuilt container differs from iter_all of the original", T::NAME)));
+    if segments(&iter_all_items(&r)) != segs {
+        acc.class("gmap replay: iter_all of the rebuilt container differs from iter_all of the original (recorded, not judged)");
+        exact = false;
     }
     if m.depth() >= 1 && segs.iter().skip(1).any(|s| !s.is_empty()) {
         acc.count("replay_with_nonempty_group_log");
@@ -324,14 +345,18 @@ pub fn check_history<T: Back>(h: &[u8], acc: &mut Acc) -> Result<Fp, Mismatch> {
     if dc != want_drain {
         return Err(mismatch(format!("{want_drain:?}"), format!("{dc:?}"), format!("{}: ending all groups (and one more) shows different values", T::NAME)));
     }
-    fingerprint(&segs, &dc, raw_len)
+    if !exact {
+        return Ok(unmerged_fp(h));
+    }
+    Ok(fingerprint(&segs, &dc, raw_len).unwrap_or_else(|| unmerged_fp(h)))
 }
 
 /// Replay law, second half, at the state reached by `h`: a container rebuilt from `iter_all()`
 /// behaves like the model under every continuation of length 1..=`cont` (return values and visible
 /// contents after every step, drain at the end).
 pub fn check_continuations<T: Back>(h: &[u8], cont: usize, acc: &mut Acc) -> Result<(), Mismatch> {
-    let (c, m) = reach::<T>(h, None)?;
+    let mut ret_differs = false;
+    let (c, m) = reach::<T>(h, None, &mut ret_differs)?;
     let items = iter_all_items(&c);
     let mut conts: Vec<Vec<u8>> = vec![];
     for a in 0..N_ACT as u8 {
@@ -346,7 +371,7 @@ pub fn check_continuations<T: Back>(h: &[u8], cont: usize, acc: &mut Acc) -> Res
         let mut r: GC<T> = rebuild(&items);
         let mut mm = m.clone();
         for (j, a) in cs.iter().enumerate() {
-            apply_both(&mut r, &mut mm, act(*a), h.len() + j).map_err(|mut e| {
+            apply_both(&mut r, &mut mm, act(*a), h.len() + j, &mut ret_differs).map_err(|mut e| {
                 e.note = format!("replay law: rebuilt container under continuation [{}]: {}", render(cs), e.note);
                 e
             })?;
